@@ -158,7 +158,8 @@ func TestVerif_Olla(t *testing.T) {
 				}
 				time.Sleep(15 * time.Millisecond) // the repository write may trail the client's last byte
 				emit("Done", "st", code, "xb", res.Header.Get("X-Backend"))
-				emit("Repo", "status", stk.statuses())
+				st := verifStats(stk) // waits until the collector's numbers have settled
+				emit("Repo", "status", stk.statuses(), "stats", st[1])
 			}
 		}
 	})
